@@ -650,6 +650,40 @@ def _raw_and_instanciate(mtree, dtree, btree):
     return "\n".join(out)
 
 
+def _prepare_vertices(dtree):
+    """mesh_data.py::RawMeshData._prepare_vertices: per vertex, a VIEW of the stored object, replaced by a NEW array when the vertex is
+    planar (padding) or of integer / boolean kind (conversion), then stored back"""
+    fn = T.find_def(dtree, "RawMeshData._prepare_vertices")
+    b = _body(fn)
+
+    def u(x): return ast.unparse(x).replace(" ", "").replace('"', "'")
+    if not (len(b) == 1 and isinstance(b[0], ast.For) and isinstance(b[0].target, ast.Name) and u(b[0].iter) == "self.id_vertices"):
+        raise TranslateError("_prepare_vertices: loop over self.id_vertices not found")
+    iv = b[0].target.id
+    body = _body(b[0])
+    if len(body) < 2 or not (isinstance(body[0], ast.Assign) and isinstance(body[0].targets[0], ast.Name)):
+        raise TranslateError("_prepare_vertices: first statement")
+    v = body[0].targets[0].id
+    first = u(body[0].value)
+    if first == f"Vec(self.vertices[{iv}])" or first == f"self.vertices[{iv}]": lines = ["let v := VRef.view"]
+    elif first in (f"Vec(np.array(self.vertices[{iv}]))", f"np.array(self.vertices[{iv}])", f"Vec(self.vertices[{iv}].copy())"): lines = ["let v := VRef.new"]
+    else: raise TranslateError(f"_prepare_vertices: first binding not understood: {first[:70]}")
+    for st in body[1:-1]:
+        if not (isinstance(st, ast.If) and not st.orelse and len(st.body) == 1 and isinstance(st.body[0], ast.Assign) and u(st.body[0].targets[0]) == v):
+            raise TranslateError(f"_prepare_vertices: statement not understood: {u(st)[:70]}")
+        t, val = u(st.test), u(st.body[0].value)
+        if t in (f"{v}.ndim==1and{v}.size<3", f"{v}.size<3and{v}.ndim==1") and val in (f"Vec(np.pad({v},(0,3-{v}.size)))", f"np.pad({v},(0,3-{v}.size))"):
+            lines.append("let v := if planar i then VRef.new else v")
+        elif t == f"{v}.dtype.kindin'iub'" and val in (f"Vec({v}.astype(np.float64))", f"{v}.astype(np.float64)", f"Vec({v}.astype(float))"):
+            lines.append("let v := if intKind i then VRef.new else v")
+        else: raise TranslateError(f"_prepare_vertices: branch not understood: if {t[:50]}: {val[:50]}")
+    if u(body[-1]) != f"self.vertices[{iv}]={v}": raise TranslateError("_prepare_vertices: the vertex is not stored back")
+    lines.append("storeVRef s mi i v")
+    return ("/-- `RawMeshData._prepare_vertices` (`planar i` / `intKind i`: vertex `i` has fewer than 3 components / an integer or boolean dtype) -/\n"
+            "def prepareVertices (planar intKind : Nat → Bool) (mi : Nat) (s : State) : State :=\n"
+            "  (idVertices s mi).foldl (fun s i =>\n" + ind("\n".join(lines), 6) + ") s\n")
+
+
 def _producer_sites(tree, name):
     """procedural producers: every statement that stores a vertex (`<acc>.vertices.append(e)` / `<acc>.vertices[k] = e`), in source order,
     with the provenance of the stored object; a plain name must have been (re)bound to a new object since it was last stored"""
@@ -757,7 +791,7 @@ def translate_sites():
     def ri():
         dtree, _ = T.load("mouette/mesh/mesh_data.py")
         btree, _ = T.load("mouette/mesh/datatypes/base.py")
-        chunks.append(_raw_and_instanciate(mtree, dtree, btree)); return "re-wrap shares the containers; class = max(dim, dimensionality); load"
+        chunks.append(_raw_and_instanciate(mtree, dtree, btree)); chunks.append(_prepare_vertices(dtree)); return "re-wrap shares the containers; class = max(dim, dimensionality); load"
     rec = T.site("mesh_data.py:RawMeshData.__init__ / _compute_dimensionality, base.py:Mesh.__init__, mesh.py:_instanciate_raw_mesh_data / load (bodies)", ri)
     sites.append(rec); status["instanciate"] = rec["ok"]
 
